@@ -167,6 +167,8 @@ def _get_tag(el: ElementTree.Element) -> str:
 
 
 def _lookup(attrib: Dict[str, str], key: str, parsed_attributes: Set[str]) -> str:
+    if key not in attrib:
+        raise XmlSchemaException(f"Missing attribute '{key}'", None)
     parsed_attributes.remove(key)
     return attrib[key]
 
